@@ -55,6 +55,9 @@ def make_tag(shape, timeout):
             C = MT = None
             err = type(e).__name__
     site = shape.name
+    from vlib.props.c01 import _has_union
+
+    has_union = _has_union(shape)
 
     def body(**p):
         if err is not None:
@@ -77,9 +80,11 @@ def make_tag(shape, timeout):
         if not ok:
             return ("codec_decode_raised", site, _d(v, enc, dec))
         if not shape.same(v, dec):
-            return ("codec_roundtrip_neq", site, _d(v, enc, dec))
+            # a Union whose earlier member also accepts a later member's wire form: the weaker fixpoint law (C01)
+            if not (has_union and attempt(C.encode, dec) == (True, enc)):
+                return ("codec_roundtrip_neq", site, _d(v, enc, dec))
         ok, dec2 = attempt(lambda: typelib.decode(shape.T, enc, decoder=tag_dec))
-        if not ok or not shape.same(v, dec2):
+        if not ok or not deep_same(dec, dec2):
             return ("api_decode_differs", site, _d(v, dec2))
         return None
 
@@ -145,6 +150,9 @@ def _nleaves(shape):
 
 
 def make_json(shape, cfg, timeout):
+    from vlib.props.c01 import _has_union
+
+    has_union = _has_union(shape)
     site = shape.name
     n = max(6, 3 * _nleaves(shape) + 2)
 
@@ -190,12 +198,13 @@ def make_json(shape, cfg, timeout):
             if not ok:
                 return ("codec_decode_raised:" + type(dec).__name__, site, _d(v, enc, dec))
             if not shape.same(v, dec):
-                return ("codec_roundtrip_neq", site, _d(v, enc, dec))
+                if not (has_union and attempt(C.encode, dec) == (True, enc)):
+                    return ("codec_roundtrip_neq", site, _d(v, enc, dec))
             ok, d2 = attempt(api_dec, enc)
-            if not ok or not shape.same(v, d2):
+            if not ok or not deep_same(dec, d2):
                 return ("api_decode_differs", site, _d(v, enc, d2))
             ok, d3 = attempt(lambda: typelib.unmarshal(shape.T, D(enc)))
-            if not ok or not shape.same(v, d3):
+            if not ok or not deep_same(dec, d3):
                 return ("decode_differs_from_unmarshal_of_decoder", site, _d(v, enc, d3))
         return None
 
